@@ -1767,7 +1767,9 @@ sexp sexp_quotient (sexp ctx, sexp a, sexp b) {
     }
     break;
   case SEXP_NUM_FIX_BIG:
-    r = SEXP_ZERO;
+    /* not always 0: the most negative fixnum has the magnitude of the smallest bignum */
+    tmp = sexp_fixnum_to_bignum(ctx, a);
+    r = sexp_bignum_normalize(sexp_bignum_quotient(ctx, tmp, b));
     break;
   case SEXP_NUM_BIG_FIX:
     b = tmp = sexp_fixnum_to_bignum(ctx, b);
@@ -1846,7 +1848,9 @@ sexp sexp_remainder (sexp ctx, sexp a, sexp b) {
     r = sexp_fx_rem(a, b);
     break;
   case SEXP_NUM_FIX_BIG:
-    r = a;
+    /* not always a: the most negative fixnum has the magnitude of the smallest bignum */
+    tmp = sexp_fixnum_to_bignum(ctx, a);
+    r = sexp_bignum_normalize(sexp_bignum_remainder(ctx, tmp, b));
     break;
   case SEXP_NUM_BIG_FIX:
     r = sexp_bignum_fxrem(ctx, a, sexp_unbox_fixnum(b));
